@@ -398,7 +398,6 @@ def build_long(tier):
         out.append(Q(qid, fn, bound + "; " + tree_text, timeout=timeout, per_path_timeout=60, expect_cover=covers,
                      family=family, config=config))
 
-    down = {"abs": "sub", "rel": "sub", "nested": "c"}
     spell = {"abs": ("/d/r", ("d", "r")), "rel": ("r", ("d", "r")), "abs-slash": ("/d/r/", ("d", "r"))}
     GET_COVER = ["refused-403", "refused-404", "served-open"]
 
@@ -422,7 +421,7 @@ def build_long(tier):
                 qid = "climb/%s/%s/n%d-%d" % (tag, kind, sizes[0], sizes[-1])
                 bound = ("root %r (cwd %s); name = stretch %r of size n in {%s} + c times '../' (c = 0..2) + every tail "
                          "of 0..1 characters (any code point); GET" % (spelling, CWD, kind, _sizes_text(sizes)))
-                timeout = 240 if T or sizes[-1] <= 300 else 250          # measured <= 20 CPU s (quick set), <= 75 (run/n2047-4097)
+                timeout = 240 if sizes[-1] <= 300 else 250          # measured <= 20 CPU s (quick set), 75 (run/n2047-4097)
                 add("climb", qid, make_climb(cases, loc, 2), bound, timeout, GET_COVER,
                     {"root": spelling, "stretch": kind, "sizes": sizes, "ups": 2})
     # the same after a long name has been served in the same process (state kept between calls)
@@ -640,6 +639,6 @@ def selftest(tier):
                 out.append((qid, {"i": i, "c": 3, "tail": ""}, "rejected"))
     for qid in ("long/abs/dot/n33/t4", "long/abs/dot/n4097/t4", "long/abs/run/n257/t4"):
         if qid in ids:
-            for tail in ("f", "sub/", "\\..\\", "c/g", "sub/g"):
+            for tail in ("f", "sub/", "\\..\\", "c/g", "c/c/"):
                 out.append((qid, {"i": 0, "tail": tail, "head": False}, "ok"))
     return out
